@@ -2,6 +2,7 @@ import PonyVerif.Drive.Util
 import PonyVerif.Model.Mapping
 namespace PonyVerif.Drive.C26
 open Lean PonyVerif.Drive PonyVerif.Model.Schema PonyVerif.Model.Mapping
+local notation "Name" => PonyVerif.Model.Schema.Name
 
 def jName (n : Name) : Json := .str (String.ofList n)
 def jNames (l : List Name) : Json := .arr (l.map jName).toArray
@@ -123,8 +124,8 @@ def getPair (j : Json) : Except String (Name × Name) :=
 def getEntity (j : Json) : Except String Entity := do
   let attrs ← (← argArr j "attrs").mapM getAttr
   let idx ← (← argArr j "indexes").mapM (fun x => do
-    let at ← (← argArr x "attrs").mapM getPair
-    pure ({ attrs := at, isPk := ← getBoolD x "isPk" false, isUnique := ← getBoolD x "unique" false } : IndexDecl))
+    let ats ← (← argArr x "attrs").mapM getPair
+    pure ({ attrs := ats, isPk := ← getBoolD x "isPk" false, isUnique := ← getBoolD x "unique" false } : IndexDecl))
   pure { name := ← getName j "name", root := ← getName j "root", table := ← getOptName j "table", attrs := attrs,
          pkAttrs := ← getNames j "pkAttrs", indexes := idx }
 
